@@ -12,6 +12,7 @@ LEVEL = "model_checking"
 
 DEFECTS = ["FilterChain_defect%d.cfg" % i for i in range(1, 6)]
 ANSWERS = ("hs", "hc", "d", "ts", "ac", "t")
+OTHER_PROPERTY = ("ended-while-waiting-for-the-upstream", "never-ended-while-waiting-for-the-upstream")
 REAL = {"ipaccess": ("B", 403), "payloadlimit": ("R", 413), "faultinject": ("R", 555)}
 
 
@@ -75,9 +76,9 @@ def run(ctx):
             vs = [s["v"] for s in c["script"]]
             return sum(v in ANSWERS for v in vs) + sum(v in ("rm", "rc") for v in vs) >= 2
         core = [c for c in long_ if dense(c) and c["env"] == "ok"]
-        core = rng.sample(core, min(len(core), 2500))
+        core = rng.sample(core, min(len(core), 4000))
         rest = [c for c in long_ if not (dense(c) and c["env"] == "ok")]
-        picked = short + core + rng.sample(rest, min(len(rest), 2500))
+        picked = short + core + rng.sample(rest, min(len(rest), 4000))
     else:
         picked = list(cases)
     picked += real_cases()
@@ -95,6 +96,7 @@ def run(ctx):
         t.join()
     nruns = nev = ncontam = 0
     kinds_seen = {}
+    other = {}
     for gi in sorted(out):
         allp, v, err = out[gi]
         if err is not None:
@@ -126,6 +128,12 @@ def run(ctx):
             if st in dirty:
                 return
             case = (runev or {}).get("case", {})
+            if kind in OTHER_PROPERTY:
+                # the request was forwarded as the specification says and then hung on the upstream side: life cycle (C03/C09)
+                other[kind] = other.get(kind, 0) + 1
+                if len(ctx.notes) < 5:
+                    ctx.notes.append("other-property (C03) mismatch %s in case %s" % (kind, json.dumps(case)))
+                return
             end = next((j for j in range(line, len(evs) + 1) if evs[j - 1]["ev"] == "quiesce"), line)
             sig = signature(kind, case)
             kinds_seen[kind] = kinds_seen.get(kind, 0) + 1
@@ -150,6 +158,9 @@ def run(ctx):
                             by_env={e: sum(1 for c in picked if c["env"] == e) for e in sorted({c["env"] for c in picked})})
     if kinds_seen:
         ctx.cov["mismatch_kinds"] = kinds_seen
+    if other:
+        ctx.cov["other_property_mismatches"] = other
+        vlib.log("[C14] note: %s (requests that hung after a correct forward: C03/C09 matter, not decided here)" % other)
     ctx.cov["exhaustive"] = not q
     ctx.cov["rule"] = ("one case = (chain of <=3 filters over {BeforeRoute, AfterRoute, AfterChooseHost, send}, verdict per invocation from "
                        "{continue, stop, termination, hijack+stop, hijack+continue, direct response, TerminateStream sync / from a 2nd "
